@@ -237,7 +237,7 @@ func containsWrite(fset interface{}, b *ast.BlockStmt) bool {
 	return found
 }
 
-func isNewErrorReturnAny(fset interface{ }, s ast.Stmt) bool {
+func isNewErrorReturnAny(fset interface{}, s ast.Stmt) bool {
 	r, ok := s.(*ast.ReturnStmt)
 	if !ok || len(r.Results) == 0 {
 		return false
